@@ -1,0 +1,43 @@
+// Unless explicitly stated otherwise all files in this repository are licensed
+// under the Apache License Version 2.0.
+// This product includes software developed at Datadog (https://www.datadoghq.com/).
+// Copyright 2016-2019 Datadog, Inc.
+
+//go:build verif
+
+package canary
+
+import (
+	"io"
+
+	"k8s.io/cli-runtime/pkg/genericclioptions"
+	"sigs.k8s.io/controller-runtime/pkg/client"
+)
+
+func verifStreams(out io.Writer) genericclioptions.IOStreams {
+	return genericclioptions.IOStreams{In: nil, Out: out, ErrOut: out}
+}
+
+// VerifRunPause runs the body of `kubectl eds canary pause|unpause` with an injected client (build tag verif).
+func VerifRunPause(c client.Client, namespace, name string, pause bool, out io.Writer) error {
+	o := newPauseOptions(verifStreams(out), pause)
+	o.client, o.userNamespace, o.userExtendedDaemonSetName, o.args = c, namespace, name, []string{name}
+
+	return o.run()
+}
+
+// VerifRunValidate runs the body of `kubectl eds canary validate` with an injected client (build tag verif).
+func VerifRunValidate(c client.Client, namespace, name string, out io.Writer) error {
+	o := newValidateOptions(verifStreams(out))
+	o.client, o.userNamespace, o.userExtendedDaemonSetName, o.args = c, namespace, name, []string{name}
+
+	return o.run()
+}
+
+// VerifRunFail runs the body of `kubectl eds canary fail` with an injected client (build tag verif).
+func VerifRunFail(c client.Client, namespace, name string, out io.Writer) error {
+	o := newfailOptions(verifStreams(out), true)
+	o.client, o.userNamespace, o.userExtendedDaemonSetName, o.args = c, namespace, name, []string{name}
+
+	return o.run()
+}
